@@ -4,6 +4,8 @@
    judged on the real driver by the oracle of ./check C02. *)
 From Compio.Model Require Import Base DriverKeys ResultSlot.
 From Compio.Thm Require Import DriverKeysThm ResultSlotThm.
+From Compio.Model Require Import PollDrv.
+From Compio.Thm Require Import PollDrvThm.
 
 (* in every reachable state an operation has at most one stored result *)
 Theorem C02_result_at_most_once : forall u es s k x,
@@ -93,3 +95,55 @@ Example C02_waker_nonvacuous :
   waccept [108; 0; 1;  6; 0; 7;  101; 0; 1]%N <> None.
 Proof. exact wakers_replaced_example. Qed.
 Print Assumptions C02_waker_nonvacuous.
+
+(* ---- polling driver: per-descriptor queues (model/PollDrv.v) ---- *)
+
+(* "left waiting once everything the operation waits for is ready": in every reachable
+   state a descriptor with waiters is armed for exactly the directions that have
+   waiters, so a readiness cannot go unnoticed *)
+Theorem C02_poll_armed_iff_waiting : forall os fd,
+  let s := fold_left pstep os pinit in
+  match alookup (pol s) fd with
+  | Some a =>
+    let q := get_q s fd in
+    (a_r a = true <-> rq q <> []) /\ (a_w a = true <-> wq q <> []) /\
+    In (a_key a) (rq q ++ wq q)
+  | None => rq (get_q s fd) = [] /\ wq (get_q s fd) = []
+  end.
+Proof. intros os fd. apply armed_iff_waiting. apply reachable_pinv. Qed.
+Print Assumptions C02_poll_armed_iff_waiting.
+
+(* "readiness arrives in an unusual order": a readiness the head operation cannot use
+   (two descriptors of one socket, another waiter took the data: operate answers
+   Pending) leaves queue, tracking marks and registration exactly as before — the next
+   readiness is recognised and the operation attempted again *)
+Theorem C02_poll_unusable_readiness_is_identity : forall s fd k rest w,
+  alookup (reg s) fd = Some (mk_fdq (k :: rest) w) ->
+  tracks s k = [mk_track fd Rd false] ->
+  let s' := fst (fst (poll_one s fd true false false)) in
+  get_q s' fd = mk_fdq (k :: rest) w /\
+  tracks s' k = [mk_track fd Rd false] /\
+  alookup (pol s') fd = Some (event_of (mk_fdq (k :: rest) w)) /\
+  snd (poll_one s fd true false false) = None.
+Proof. exact pending_attempt_is_identity. Qed.
+Print Assumptions C02_poll_unusable_readiness_is_identity.
+
+(* "outcomes are never swapped": a usable readiness completes the operation queued
+   FIRST on that descriptor and direction; the others move up in order *)
+Theorem C02_poll_ready_completes_head : forall s fd k rest w,
+  alookup (reg s) fd = Some (mk_fdq (k :: rest) w) ->
+  tracks s k = [mk_track fd Rd false] ->
+  snd (poll_one s fd true false true) = Some k /\
+  get_q (fst (fst (poll_one s fd true false true))) fd = mk_fdq rest w.
+Proof. exact ready_completes_head. Qed.
+Print Assumptions C02_poll_ready_completes_head.
+
+Example C02_poll_nonvacuous :
+  let s := fst (push_op (fst (push_op pinit 0 [(5, Rd)])) 1 [(5, Rd)]) in
+  alookup (reg s) 5 = Some (mk_fdq [0; 1] []) /\ tracks s 0 = [mk_track 5 Rd false] /\
+  snd (poll_one s 5 true false true) = Some 0 /\
+  paccept [41;1;5; 42;1;4294967301; 41;2;5; 42;1;4294967301; 43;1;1; 44;1;5; 45;1;0;
+           41;1;8589934597; 42;1;4294967301; 42;1;4294967301]%N = None /\
+  paccept [41;1;5; 42;1;4294967301; 41;2;5; 42;1;4294967301; 43;1;1; 44;2;5]%N <> None.
+Proof. cbv zeta. repeat split; vm_compute; try reflexivity; discriminate. Qed.
+Print Assumptions C02_poll_nonvacuous.
